@@ -35,9 +35,10 @@ def gen_case(rng):
     h = {"version": pc.V02, "width": 10, "height": 10, "depth": 0, "components": comps}
     F, P = rng.choice([0, 1, 2, 3, 4]), rng.choice([0, 1, 1, 2, 3])
     N = pc.total_points(h)
+    subnormal = rng.random() < 0.15                    # binary32 subnormal confidences (±1.4e-45 … 5.9e-39): not 0, hence present
     body = {"fps": {"f32": rng.choice([0x41C80000, 0x41F00000, 0x41EFC28F])}, "frames": F, "people": P, "points": N, "dims": dims,
             "data": [int(np.float32(rng.randint(-5, 5)).view(np.uint32)) if rng.random() < 0.8 else pc.f32_bits(rng) for _ in range(F * P * N * dims)],
-            "conf": [rng.choice([0, 0x80000000, 0x3F800000, 0x3F000000, 0xBF800000, 0x7FC00000, 0x00800000, 0x3DCCCCCD]) for _ in range(F * P * N)]}
+            "conf": [rng.choice([0, 0x80000000, 0x3F800000, 0x3F000000, 0xBF800000, 0x7FC00000, 0x00800000, 0x3DCCCCCD] + ([0x00000001, 0x00400000, 0x80000400] if subnormal else [])) for _ in range(F * P * N)]}
     case = {"header": h, "body": body}
     ops = []
     f, n = F, N
@@ -92,6 +93,19 @@ def close_bits(a, b, exact, f32_overflow=False, scale=1.0):
     if exact:
         return x == y
     return abs(x - y) <= 1e-5 * max(1.0, abs(x), abs(y), scale)
+
+
+def subnormal_only(case, va, vb):
+    """do the missing patterns of two views differ only at points whose stored confidence is a binary32 subnormal? (known finding K5: tensorflow's kernels flush
+    subnormals to zero, so `confidence != 0` is False there)"""
+    if va.get("missing") is None or vb.get("missing") is None or len(va["missing"]) != len(vb["missing"]) or va.get("shape") != vb.get("shape"):
+        return False
+    d = va["shape"][3] if len(va["shape"]) > 3 else 1
+    diff_pts = {i // max(d, 1) for i, (x, y) in enumerate(zip(va["missing"], vb["missing"])) if x != y}
+    if not diff_pts:
+        return False
+    sub = lambda bits64: 0 < abs(bits_f64(bits64)) < 1.1754943508222875e-38
+    return all(j < len(va["conf"]) and sub(va["conf"][j]) for j in diff_pts)
 
 
 def same_view(a, b, exact=True, f32_overflow=False, scale=1.0):
@@ -152,6 +166,12 @@ def run(ctx):
                     for d in range(dims):
                         b["data"][j * dims + d] = int(np.float32(rng.randint(-5, 5)).view(np.uint32))
             planned.append((case, opl))
+    # known finding K5, exercised on every run: subnormal confidences (present on NumPy / torch, flushed to zero — hence missing — by tensorflow's kernels)
+    case, _ = gen_case(rng)
+    while not (case["body"]["frames"] >= 1 and case["body"]["people"] >= 1 and case["body"]["points"] >= 2):
+        case, _ = gen_case(rng)
+    case["body"]["conf"] = [[0x00000001, 0x3F800000, 0x00400000, 0x80000400][j % 4] for j in range(len(case["body"]["conf"]))]
+    planned.append((case, []))
     for it in range(ctx.pick(150, 1500) + len(planned)):
         case, ops = planned[it] if it < len(planned) else gen_case(rng)
         raw = refenc.v02(case)
@@ -209,7 +229,10 @@ def run(ctx):
                 nm = sum(1 for o in c["ops"][:n] if o["k"] == "matmul")
                 ok, why = same_view(steps[avail[0]][n], steps[be][n], exact, scale=c["maxabs"] * (8.0 ** nm) if c["maxabs"] < 1e30 else 1.0)
                 if not ok:
-                    ctx.violation("backends disagree", info, {"step": n, "operation": opname, "backends": [avail[0], be], "what": why}, True, size=len(c["hex"]), signature={"op": opname, "what": why})
+                    sig = {"op": opname, "what": why}
+                    if be == "tf" and why in ("missing pattern", "zero-filled coordinates") and subnormal_only(c, steps[avail[0]][n], steps[be][n]):
+                        sig = {"what": "subnormal confidence", "backend": "tf"}
+                    ctx.violation("backends disagree", info, {"step": n, "operation": opname, "backends": [avail[0], be], "what": why}, True, size=len(c["hex"]), signature=sig)
                     stop = True
             # confidence-zero ⇔ missing in all dimensions
             v = steps["numpy"][n] if n < len(steps["numpy"]) else None
@@ -231,7 +254,11 @@ def run(ctx):
                 if ok and "data" in m[n] and "data" in steps[be][n] and exact and opname != "matmul":
                     ok = all(close_bits(x, y, True) for x, y in zip(m[n]["data"], steps[be][n]["data"])); why = "raw coordinates"
                 if not ok:
-                    ctx.violation("a backend differs from its model", info, {"backend": be, "step": n, "operation": opname, "what": why}, False, size=len(c["hex"])); stop = True
+                    if be == "tf" and subnormal_only(c, m[n], steps[be][n]):
+                        ctx.violation("backends disagree", info, {"step": n, "operation": opname, "backends": ["model", be], "what": why}, True, size=len(c["hex"]), signature={"what": "subnormal confidence", "backend": "tf"})
+                    else:
+                        ctx.violation("a backend differs from its model", info, {"backend": be, "step": n, "operation": opname, "what": why}, False, size=len(c["hex"]))
+                    stop = True
             if stop:
                 break
 
